@@ -17,6 +17,7 @@
 #include <signal.h>
 #include <sys/socket.h>
 #include <sys/resource.h>
+#include <sys/syscall.h>
 
 #include "vh.h"
 
@@ -28,6 +29,7 @@ static const char* const fnames[F_N] = {"build", "cbor_load", "cbor_copy", "cbor
 struct opstamp { uint8_t fn; uint64_t t0, t1; };
 struct tctx {
   int id;
+  volatile pid_t tid;     /* kernel thread id, for the blocked-or-merely-slow decision */
   uint64_t seed;
   int nops;
   uint64_t digest;
@@ -289,6 +291,7 @@ static void workload(struct tctx* c) {
 
 static void* thread_main(void* arg) {
   struct tctx* c = arg;
+  c->tid = (pid_t)syscall(SYS_gettid);
   TS_allocs = TS_frees = 0;
   pthread_barrier_wait(c->bar);
   workload(c);
@@ -389,6 +392,31 @@ static void process_state_diff(const char* a, const char* b, char* out, size_t c
 static uint64_t g_runs, g_digest_mismatch, g_thread_workloads;
 
 /* descriptor: 'T' nthreads, nops(u16), seed(u64) */
+/* Blocked or merely slow? The deadline alone is wall-clock time and says nothing on a loaded machine. A thread is called
+ * blocked only if, over six samples two seconds apart, the kernel reports it sleeping every time and its consumed CPU
+ * time has not moved; anything else (running, runnable, or progressing) is slowness, and the join waits on. */
+static bool thread_is_blocked(pid_t tid) {
+  unsigned long long cpu0 = 0;
+  for (int k = 0; k < 6; k++) {
+    char path[64], buf[512];
+    snprintf(path, sizeof path, "/proc/self/task/%d/stat", (int)tid);
+    FILE* f = fopen(path, "r");
+    if (!f) return false; /* gone: it finished */
+    size_t n = fread(buf, 1, sizeof buf - 1, f);
+    fclose(f);
+    buf[n] = 0;
+    char* rp = strrchr(buf, ')');
+    if (!rp) return false;
+    char state = 0; unsigned long long ut = 0, st = 0;
+    /* after ") ": state ppid pgrp session tty tpgid flags minflt cminflt majflt cmajflt utime stime */
+    if (sscanf(rp + 2, "%c %*d %*d %*d %*d %*d %*u %*u %*u %*u %*u %llu %llu", &state, &ut, &st) != 3) return false;
+    if (state != 'S') return false;
+    if (k == 0) cpu0 = ut + st; else if (ut + st != cpu0) return false;
+    if (k < 5) { struct timespec ts = {2, 0}; nanosleep(&ts, NULL); }
+  }
+  return true;
+}
+
 static void thr_case(int nthreads, int nops, uint64_t seed, bool tsan) {
   uint8_t desc[12] = {'T', (uint8_t)nthreads, (uint8_t)(nops >> 8), (uint8_t)nops};
   for (int i = 0; i < 8; i++) desc[4 + i] = (uint8_t)(seed >> (56 - 8 * i));
@@ -428,8 +456,15 @@ static void thr_case(int nthreads, int nops, uint64_t seed, bool tsan) {
     clock_gettime(CLOCK_REALTIME, &dl);
     dl.tv_sec += 90;
     for (int i = 0; i < nthreads; i++)
-      if (pthread_timedjoin_np(th[i], NULL, &dl) != 0) {
-        vh_violation("thread-blocked", "thread %d of %d (private items; one healthy and one failing shared stream) did not finish within 90 s of workloads that take well under a second: it is blocked on state another thread's call left behind", i, nthreads);
+      for (int round = 0; pthread_timedjoin_np(th[i], NULL, &dl) != 0; round++) {
+        if (!thread_is_blocked(cs[i].tid)) { /* slow, not blocked: wait on; after ten more rounds the run is inconclusive, not a violation */
+          if (round >= 10) vh_die("thread %d of %d neither finished nor is blocked after %d deadlines of 90 s (machine overloaded?)", i, nthreads, round + 1);
+          VH_COUNT("deadline_extensions_for_slow_threads", 1);
+          clock_gettime(CLOCK_REALTIME, &dl);
+          dl.tv_sec += 90;
+          continue;
+        }
+        vh_violation("thread-blocked", "thread %d of %d (private items; one healthy and one failing shared stream) did not finish within 90 s of workloads that take well under a second, and the kernel reports it asleep with no CPU time consumed over 10 s: it is blocked on state another thread's call left behind", i, nthreads);
         { FILE* mk = fopen(marker, "w"); if (mk) fclose(mk); }
         fflush(NULL);
         _exit(1);
